@@ -69,8 +69,25 @@ def rewrite_prog(rng, pid):
     nid = [0]
     nsrc = rng.randint(1, 2)
     sources = [rand_entries(rng, PLAIN + (ODD[:4] if rng.random() < 0.3 else []), 3, nid) for _ in range(nsrc)]
-    allp = sorted({"src/" + e["path"] for s in sources for e in s})
     globs = []
+    # the same sub-tree at two paths (a directory copied / moved between two backups: same tree blob) and an exclude
+    # anchored below only one of them (added after seeded change C12-rewrite-memo-by-tree-id)
+    dirs0 = [e["path"] for e in sources[0] if e["kind"] == "dir" and "/" not in e["path"]
+             and any(x["path"].startswith(e["path"] + "/") and x["kind"] != "dir" for x in sources[0])
+             and e["path"].isascii() and not any(ch in e["path"] for ch in "\"\t\\]\n *?[")]
+    if dirs0 and rng.random() < 0.6:
+        d = rng.choice(dirs0)
+        twin = "twin_" + d
+        target = sources[-1] if rng.random() < 0.5 else sources[0]
+        for e in [x for x in sources[0] if x["path"] == d or x["path"].startswith(d + "/")]:
+            c = dict(e)
+            c["path"] = twin + e["path"][len(d):]
+            target.append(c)
+        kids = [x["path"] for x in sources[0] if x["path"].startswith(d + "/") and x["path"].isascii()
+                and not any(ch in x["path"] for ch in "\"\t\\]\n *?[")]
+        if kids:
+            globs.append("!/src/" + rng.choice(kids))
+    allp = sorted({"src/" + e["path"] for s in sources for e in s})
     for _ in range(rng.randint(1, 3)):
         k = rng.random()
         cand = rng.choice(allp)
